@@ -4,10 +4,10 @@ SPEC = dict(
     observers=[
         dict(cmd="obs_retry", imports=["Model.RetryCase"], case_type="RetryCase.case", check="RetryCase.check_case",
              args=["-prop", "C03", "-kinds", "single,single,single,batch,batch,standalone,standalone,standalone-batch,standalone-batch,sentinel,sentinel,expiry"],
-             n={"quick": 500, "thorough": 6000}, shard=100, timeout={"quick": 600, "thorough": 5400}),
+             n={"quick": 400, "thorough": 6000}, shard=100, timeout={"quick": 600, "thorough": 5400}),
         dict(cmd="obs_cluster", imports=["Model.Cluster"], case_type="Cluster.case", check="Cluster.check_case",
              args=["-prop", "C03", "-kinds", "do"],
-             n={"quick": 300, "thorough": 6000}, shard=100),
+             n={"quick": 250, "thorough": 6000}, shard=100),
     ],
     rule="every point at which a connection can fail relative to a request (closed before execution, after execution without reply, "
          "inside the reply) in sequences of 0-6 reactions, with LOADING / REDIRECT / MOVED / ASK replies in between, for single, sentinel, "
